@@ -2,6 +2,7 @@
     Statements are in VekProofs.C13_spec; programs are regenerated from /repo by symx. *)
 From VekLib Require Import Ops ROps LinAlg RLin.
 From VekLib Require Import MachineInt.
+Require Import ZArith.
 From VekProofs Require Import C13_spec C13_proofs C13_rect C13_int C13_misc.
 
 Theorem C13_aabr : C13_aabr_stmt. Proof. exact C13_proofs.C13_aabr. Qed.
@@ -15,3 +16,9 @@ Print Assumptions C13_aabb.
 Print Assumptions C13_rect.
 Print Assumptions C13_int.
 Print Assumptions C13_misc.
+
+(** the hypotheses of C13_int are satisfiable: an 8-bit signed box *)
+Example C13_int_example :
+  let s := {| signed := true; width := 8; dbg := true |} in
+  C13_int.ok2 s /\ in_range s (10 + 100)%Z /\ in_range s (100 - 10)%Z.
+Proof. cbv [C13_int.ok2 in_range imin imax signed width]. cbn. repeat split; Lia.lia. Qed.
